@@ -83,7 +83,12 @@ async fn run_op(store: &FileStore, log_manager: &Addr<RaftLogManager>, index_man
             let e: Entry<ClientRequest> = Entry::new_snapshot_pointer(n(i), n(t), "1".to_string(), MembershipConfig::new_initial(1));
             match StoreUtils::entry_to_record(&e) {
                 Ok(r) => match log_manager.send(RaftLogManagerRequest::BuildSnapshotPointerLog(r)).await {
-                    Ok(Ok(_)) => "ok".to_string(),
+                    Ok(Ok(_)) => {
+                        // the pointer record is handed to its log actor without waiting; a query goes through every log
+                        // actor's mailbox behind it, so its answer means the installation has been carried out
+                        let _ = store.get_log_entries(n(i), n(i) + 1).await;
+                        "ok".to_string()
+                    }
                     _ => "err".to_string(),
                 },
                 Err(_) => "err".to_string(),
